@@ -56,7 +56,168 @@ theorem no_period (a : Bytes) (h : ∀ x ∈ a, validByte params62 x = true) :
   obtain ⟨x, hx, he⟩ := hc
   exact valid_ne_period a h x hx he
 
-/-! ### trimSpace -/
+/-! ### trimSpace
+
+`Armor.trimSpace` is `strings.TrimSpace` (Unicode white space, UTF-8 decoded from
+both ends).  The generic lemmas are about `trimRunes`, of which the left and
+the (reversed) right trimming are instances. -/
+
+theorem u8_beq_false_of_lt (c k : UInt8) (hc : c < 128) (hk : 128 ≤ k) : (c == k) = false := by
+  rw [beq_eq_false_iff_ne]
+  intro h
+  subst h
+  rw [UInt8.lt_iff_toNat_lt] at hc
+  rw [UInt8.le_iff_toNat_le] at hk
+  omega
+
+/-- the rune recognisers fire on bytes ≥ 0x80 only -/
+structure HighOnly (s2 : UInt8 → UInt8 → Bool) (s3 : UInt8 → UInt8 → UInt8 → Bool) : Prop where
+  h2a : ∀ c d, c < 128 → s2 c d = false
+  h2b : ∀ c d, d < 128 → s2 c d = false
+  h3a : ∀ c d e, c < 128 → s3 c d e = false
+  h3b : ∀ c d e, d < 128 → s3 c d e = false
+  h3c : ∀ c d e, e < 128 → s3 c d e = false
+
+theorem isSp2_fst (c d : UInt8) (h : c < 128) : isSp2 c d = false := by
+  simp [isSp2, u8_beq_false_of_lt c 0xC2 h (by decide)]
+
+theorem isSp2_snd (c d : UInt8) (h : d < 128) : isSp2 c d = false := by
+  simp [isSp2, u8_beq_false_of_lt d 0x85 h (by decide), u8_beq_false_of_lt d 0xA0 h (by decide)]
+
+theorem isSp3_fst (c d e : UInt8) (h : c < 128) : isSp3 c d e = false := by
+  simp [isSp3, u8_beq_false_of_lt c 0xE1 h (by decide), u8_beq_false_of_lt c 0xE2 h (by decide),
+    u8_beq_false_of_lt c 0xE3 h (by decide)]
+
+theorem isSp3_snd (c d e : UInt8) (h : d < 128) : isSp3 c d e = false := by
+  simp [isSp3, u8_beq_false_of_lt d 0x9A h (by decide), u8_beq_false_of_lt d 0x80 h (by decide),
+    u8_beq_false_of_lt d 0x81 h (by decide)]
+
+theorem isSp3_trd (c d e : UInt8) (h : e < 128) : isSp3 c d e = false := by
+  have hle : (decide (0x80 ≤ e)) = false := by
+    rw [decide_eq_false_iff_not, UInt8.le_iff_toNat_le]
+    rw [UInt8.lt_iff_toNat_lt] at h
+    intro h'
+    have : (128 : UInt8).toNat = 128 := rfl
+    have : (0x80 : UInt8).toNat = 128 := rfl
+    omega
+  simp [isSp3, u8_beq_false_of_lt e 0x80 h (by decide), u8_beq_false_of_lt e 0xA8 h (by decide),
+    u8_beq_false_of_lt e 0xA9 h (by decide), u8_beq_false_of_lt e 0xAF h (by decide),
+    u8_beq_false_of_lt e 0x9F h (by decide), hle]
+
+theorem highOnly_left : HighOnly isSp2 isSp3 :=
+  ⟨isSp2_fst, isSp2_snd, isSp3_fst, isSp3_snd, isSp3_trd⟩
+
+theorem highOnly_right : HighOnly (fun c d => isSp2 d c) (fun c d e => isSp3 e d c) :=
+  ⟨fun c d h => isSp2_snd d c h, fun c d h => isSp2_fst d c h,
+   fun c d e h => isSp3_trd e d c h, fun c d e h => isSp3_snd e d c h, fun c d e h => isSp3_fst e d c h⟩
+
+theorem trimSpace_lt (c : UInt8) (h : isTrimSpace c = true) : c < 128 := by
+  revert c
+  apply u8_forall
+  decide +kernel
+
+section
+variable {s2 : UInt8 → UInt8 → Bool} {s3 : UInt8 → UInt8 → UInt8 → Bool}
+
+theorem trimRunes_cons_space (c : UInt8) (r : Bytes) (hc : isTrimSpace c = true) :
+    trimRunes s2 s3 (c :: r) = trimRunes s2 s3 r := by
+  cases r with
+  | nil => simp [trimRunes, hc]
+  | cons d r' =>
+    cases r' with
+    | nil => simp [trimRunes, hc]
+    | cons e r'' => simp [trimRunes, hc]
+
+theorem trimRunes_cons2 (c d : UInt8) (r : Bytes) (hc : isTrimSpace c = false) (h2 : s2 c d = true) :
+    trimRunes s2 s3 (c :: d :: r) = trimRunes s2 s3 r := by
+  cases r with
+  | nil => simp [trimRunes, hc, h2]
+  | cons e r'' => simp [trimRunes, hc, h2]
+
+theorem trimRunes_cons3 (c d e : UInt8) (r : Bytes) (hc : isTrimSpace c = false) (h2 : s2 c d = false)
+    (h3 : s3 c d e = true) : trimRunes s2 s3 (c :: d :: e :: r) = trimRunes s2 s3 r := by
+  simp [trimRunes, hc, h2, h3]
+
+theorem trimRunes_pre (p x : Bytes) (hp : ∀ c ∈ p, isTrimSpace c = true) :
+    trimRunes s2 s3 (p ++ x) = trimRunes s2 s3 x := by
+  induction p with
+  | nil => rfl
+  | cons c cs ih =>
+    have hc : isTrimSpace c = true := hp c (by simp)
+    rw [List.cons_append, trimRunes_cons_space _ _ hc]
+    exact ih (fun y hy => hp y (by simp [hy]))
+
+theorem trimRunes_all (q : Bytes) (hq : ∀ c ∈ q, isTrimSpace c = true) : trimRunes s2 s3 q = [] := by
+  have := trimRunes_pre (s2 := s2) (s3 := s3) q [] hq
+  rw [List.append_nil] at this
+  rw [this]; rfl
+
+/-- a byte below 0x80 that is not ASCII white space stops the trimming -/
+theorem trimRunes_keep (H : HighOnly s2 s3) (a : UInt8) (m : Bytes) (ha : isTrimSpace a = false) (h : a < 128) :
+    trimRunes s2 s3 (a :: m) = a :: m := by
+  cases m with
+  | nil => simp [trimRunes, ha]
+  | cons d r' =>
+    cases r' with
+    | nil => simp [trimRunes, ha, H.h2a a d h]
+    | cons e r'' => simp [trimRunes, ha, H.h2a a d h, H.h3a a d e h]
+
+theorem trimRunes_ascii (H : HighOnly s2 s3) (b : Bytes) (hb : ∀ c ∈ b, c < 128) :
+    trimRunes s2 s3 b = b.dropWhile isTrimSpace := by
+  induction b with
+  | nil => rfl
+  | cons c cs ih =>
+    by_cases hc : isTrimSpace c = true
+    · rw [trimRunes_cons_space _ _ hc, List.dropWhile_cons, if_pos hc]
+      exact ih (fun y hy => hb y (by simp [hy]))
+    · have hc' : isTrimSpace c = false := by simpa using hc
+      rw [trimRunes_keep H c cs hc' (hb c (by simp)), List.dropWhile_cons, if_neg hc]
+
+theorem trimRunes_post (H : HighOnly s2 s3) (q : Bytes) (hq : ∀ c ∈ q, isTrimSpace c = true) (x : Bytes) :
+    trimRunes s2 s3 (x ++ q) = trimRunes s2 s3 x ++ q ∨
+    (trimRunes s2 s3 x = [] ∧ trimRunes s2 s3 (x ++ q) = []) := by
+  fun_induction trimRunes s2 s3 x with
+  | case1 => right; exact ⟨rfl, by simpa using trimRunes_all q hq⟩
+  | case2 c r hc ih =>
+    rw [List.cons_append, trimRunes_cons_space _ _ hc]; exact ih
+  | case3 c hc =>
+    left
+    have hc' : isTrimSpace c = false := by simpa using hc
+    cases q with
+    | nil => simp [trimRunes, hc']
+    | cons d q' =>
+      have hd := trimSpace_lt d (hq d (by simp))
+      cases q' with
+      | nil => simp [trimRunes, hc', H.h2b c d hd]
+      | cons e q'' => simp [trimRunes, hc', H.h2b c d hd, H.h3b c d e hd]
+  | case4 c hc d r' h2 ih =>
+    have hc' : isTrimSpace c = false := by simpa using hc
+    rw [List.cons_append, List.cons_append, trimRunes_cons2 _ _ _ hc' h2]
+    exact ih
+  | case5 c hc d h2 =>
+    left
+    have hc' : isTrimSpace c = false := by simpa using hc
+    have h2' : s2 c d = false := by simpa using h2
+    cases q with
+    | nil => simp [trimRunes, hc', h2']
+    | cons e q'' =>
+      have he := trimSpace_lt e (hq e (by simp))
+      simp [trimRunes, hc', h2', H.h3c c d e he]
+  | case6 c hc d h2 e r'' h3 ih =>
+    have hc' : isTrimSpace c = false := by simpa using hc
+    have h2' : s2 c d = false := by simpa using h2
+    rw [List.cons_append, List.cons_append, List.cons_append, trimRunes_cons3 _ _ _ _ hc' h2' h3]
+    exact ih
+  | case7 c hc d h2 e r'' h3 =>
+    left
+    have hc' : isTrimSpace c = false := by simpa using hc
+    have h2' : s2 c d = false := by simpa using h2
+    have h3' : s3 c d e = false := by simpa using h3
+    simp [trimRunes, hc', h2', h3']
+end
+
+
+/-! #### ASCII trimming (`trimSpaceAscii`) -/
 
 theorem dropWhile_allT (p x : Bytes) (hp : ∀ c ∈ p, isTrimSpace c = true) :
     (p ++ x).dropWhile isTrimSpace = x.dropWhile isTrimSpace := by
@@ -67,42 +228,23 @@ theorem dropWhile_allT (p x : Bytes) (hp : ∀ c ∈ p, isTrimSpace c = true) :
     simp only [List.cons_append, List.dropWhile_cons, hc, if_true]
     exact ih (fun y hy => hp y (by simp [hy]))
 
-theorem trimSpace_pre (p x : Bytes) (hp : ∀ c ∈ p, isTrimSpace c = true) :
-    trimSpace (p ++ x) = trimSpace x := by
-  unfold trimSpace
-  rw [dropWhile_allT p x hp]
+/-- **the model's `strings.TrimSpace` is ASCII trimming on ASCII strings** -/
+theorem trimSpace_eq_ascii (b : Bytes) (hb : ∀ c ∈ b, c < 128) : trimSpace b = trimSpaceAscii b := by
+  unfold trimSpace trimSpaceAscii trimLeft trimRightRev
+  rw [trimRunes_ascii highOnly_left b hb, trimRunes_ascii highOnly_right]
+  intro c hc
+  rw [List.mem_reverse] at hc
+  exact hb c ((List.dropWhile_sublist _).subset hc)
 
-theorem dropWhile_post (x q : Bytes) (hq : ∀ c ∈ q, isTrimSpace c = true) :
-    (x ++ q).dropWhile isTrimSpace = x.dropWhile isTrimSpace ++ q ∨
-    (x.dropWhile isTrimSpace = [] ∧ (x ++ q).dropWhile isTrimSpace = []) := by
-  induction x with
-  | nil =>
-    right
-    refine ⟨rfl, ?_⟩
-    have := dropWhile_allT q [] hq
-    simpa using this
-  | cons c cs ih =>
-    by_cases hc : isTrimSpace c = true
-    · simp only [List.cons_append, List.dropWhile_cons, hc, if_true]
-      exact ih
-    · left
-      simp [hc]
+/-- …in particular on everything `toASCII` lets through (the whole armor path) -/
+theorem trimSpace_eq_ascii_valid (b : Bytes) (hb : ∀ c ∈ b, validByte params62 c = true) :
+    trimSpace b = trimSpaceAscii b :=
+  trimSpace_eq_ascii b (fun c hc => valid_lt c (hb c hc))
 
-theorem trimSpace_post (x q : Bytes) (hq : ∀ c ∈ q, isTrimSpace c = true) :
-    trimSpace (x ++ q) = trimSpace x := by
-  unfold trimSpace
-  rcases dropWhile_post x q hq with h | ⟨h1, h2⟩
-  · rw [h, List.reverse_append, dropWhile_allT _ _ (by simpa using hq)]
-  · rw [h1, h2]
-
-theorem trimSpace_surround (p x q : Bytes) (hp : ∀ c ∈ p, isTrimSpace c = true)
-    (hq : ∀ c ∈ q, isTrimSpace c = true) : trimSpace (p ++ x ++ q) = trimSpace x := by
-  rw [trimSpace_post _ _ hq, trimSpace_pre _ _ hp]
-
-/-- `b` is its trimmed version with white space around -/
-theorem trimSpace_decomp (b : Bytes) :
+/-- `b` is its ASCII-trimmed version with ASCII white space around -/
+theorem trimSpaceAscii_decomp (b : Bytes) :
     ∃ p q, (∀ c ∈ p, isTrimSpace c = true ∧ c ∈ b) ∧ (∀ c ∈ q, isTrimSpace c = true ∧ c ∈ b) ∧
-      b = p ++ trimSpace b ++ q := by
+      b = p ++ trimSpaceAscii b ++ q := by
   refine ⟨b.takeWhile isTrimSpace,
     (((b.dropWhile isTrimSpace).reverse).takeWhile isTrimSpace).reverse, ?_, ?_, ?_⟩
   · intro c hc
@@ -113,19 +255,159 @@ theorem trimSpace_decomp (b : Bytes) :
     have h1 := (List.takeWhile_sublist _).subset hc
     rw [List.mem_reverse] at h1
     exact (List.dropWhile_sublist _).subset h1
-  · unfold trimSpace
+  · unfold trimSpaceAscii
     rw [List.append_assoc, ← List.reverse_append, List.takeWhile_append_dropWhile,
       List.reverse_reverse, List.takeWhile_append_dropWhile]
 
-/-- a string whose first and last characters are not white space is its own trim -/
-theorem trimSpace_tight (a z : UInt8) (m : Bytes) (ha : isTrimSpace a = false) (hz : isTrimSpace z = false) :
-    trimSpace (a :: (m ++ [z])) = a :: (m ++ [z]) := by
-  unfold trimSpace
-  simp [ha, hz]
+/-! #### `trimSpace` -/
 
-theorem trimSpace_single (a : UInt8) (ha : isTrimSpace a = false) : trimSpace [a] = [a] := by
-  unfold trimSpace
-  simp [ha]
+theorem trimSpace_pre (p x : Bytes) (hp : ∀ c ∈ p, isTrimSpace c = true) :
+    trimSpace (p ++ x) = trimSpace x := by
+  unfold trimSpace trimLeft
+  rw [trimRunes_pre p x hp]
+
+theorem trimSpace_post (x q : Bytes) (hq : ∀ c ∈ q, isTrimSpace c = true) :
+    trimSpace (x ++ q) = trimSpace x := by
+  unfold trimSpace trimLeft trimRightRev
+  rcases trimRunes_post highOnly_left q hq x with h | ⟨h1, h2⟩
+  · rw [h, List.reverse_append, trimRunes_pre _ _ (by simpa using hq)]
+  · rw [h1, h2]
+
+theorem trimSpace_surround (p x q : Bytes) (hp : ∀ c ∈ p, isTrimSpace c = true)
+    (hq : ∀ c ∈ q, isTrimSpace c = true) : trimSpace (p ++ x ++ q) = trimSpace x := by
+  rw [trimSpace_post _ _ hq, trimSpace_pre _ _ hp]
+
+/-- an ASCII string is its trimmed version with ASCII white space around -/
+theorem trimSpace_decomp (b : Bytes) (hb : ∀ c ∈ b, c < 128) :
+    ∃ p q, (∀ c ∈ p, isTrimSpace c = true ∧ c ∈ b) ∧ (∀ c ∈ q, isTrimSpace c = true ∧ c ∈ b) ∧
+      b = p ++ trimSpace b ++ q := by
+  rw [trimSpace_eq_ascii b hb]
+  exact trimSpaceAscii_decomp b
+
+/-- the trimmed string is a contiguous part of the original -/
+theorem trimSpace_infix (b : Bytes) : ∃ p q, b = p ++ trimSpace b ++ q := by
+  have hsuf : ∀ (s2 : UInt8 → UInt8 → Bool) (s3 : UInt8 → UInt8 → UInt8 → Bool) (x : Bytes),
+      ∃ p, x = p ++ trimRunes s2 s3 x := by
+    intro s2 s3 x
+    fun_induction trimRunes s2 s3 x with
+    | case1 => exact ⟨[], rfl⟩
+    | case2 c r hc ih => obtain ⟨p, hp⟩ := ih; exact ⟨c :: p, by rw [List.cons_append, ← hp]⟩
+    | case3 c hc => exact ⟨[], rfl⟩
+    | case4 c hc d r' h2 ih => obtain ⟨p, hp⟩ := ih; exact ⟨c :: d :: p, by simp only [List.cons_append, ← hp]⟩
+    | case5 c hc d h2 => exact ⟨[], rfl⟩
+    | case6 c hc d h2 e r'' h3 ih =>
+      obtain ⟨p, hp⟩ := ih; exact ⟨c :: d :: e :: p, by simp only [List.cons_append, ← hp]⟩
+    | case7 c hc d h2 e r'' h3 => exact ⟨[], rfl⟩
+  obtain ⟨p, hp⟩ := hsuf isSp2 isSp3 b
+  obtain ⟨q, hq⟩ := hsuf (fun c d => isSp2 d c) (fun c d e => isSp3 e d c) (trimLeft b).reverse
+  refine ⟨p, q.reverse, ?_⟩
+  have h2 : trimLeft b = trimSpace b ++ q.reverse := by
+    have := congrArg List.reverse hq
+    rw [List.reverse_reverse, List.reverse_append] at this
+    exact this
+  unfold trimLeft at h2
+  rw [List.append_assoc, ← h2, ← hp]
+
+/-- a string whose first and last characters are ASCII and not white space is its own trim -/
+theorem trimSpace_tight (a z : UInt8) (m : Bytes) (ha : isTrimSpace a = false) (hz : isTrimSpace z = false)
+    (ha' : a < 128) (hz' : z < 128) :
+    trimSpace (a :: (m ++ [z])) = a :: (m ++ [z]) := by
+  unfold trimSpace trimLeft trimRightRev
+  rw [trimRunes_keep highOnly_left a _ ha ha']
+  have : (a :: (m ++ [z])).reverse = z :: (m.reverse ++ [a]) := by simp
+  rw [this, trimRunes_keep highOnly_right z _ hz hz', ← this, List.reverse_reverse]
+
+theorem trimSpace_single (a : UInt8) (ha : isTrimSpace a = false) (ha' : a < 128) : trimSpace [a] = [a] := by
+  unfold trimSpace trimLeft trimRightRev
+  rw [trimRunes_keep highOnly_left a _ ha ha']
+  simp only [List.reverse_cons, List.reverse_nil, List.nil_append]
+  rw [trimRunes_keep highOnly_right a _ ha ha']
+  rfl
+
+/-! #### bytes that stop the trimming -/
+
+/-- a byte that is neither white space nor part of any white-space rune -/
+structure Inert (s2 : UInt8 → UInt8 → Bool) (s3 : UInt8 → UInt8 → UInt8 → Bool) (k : UInt8) : Prop where
+  ns : isTrimSpace k = false
+  a2 : ∀ d, s2 k d = false
+  b2 : ∀ c, s2 c k = false
+  a3 : ∀ d e, s3 k d e = false
+  b3 : ∀ c e, s3 c k e = false
+  c3 : ∀ c d, s3 c d k = false
+
+section
+variable {s2 : UInt8 → UInt8 → Bool} {s3 : UInt8 → UInt8 → UInt8 → Bool}
+
+theorem trimRunes_inert_head {k : UInt8} (H : Inert s2 s3 k) (m : Bytes) :
+    trimRunes s2 s3 (k :: m) = k :: m := by
+  cases m with
+  | nil => simp [trimRunes, H.ns]
+  | cons d r' =>
+    cases r' with
+    | nil => simp [trimRunes, H.ns, H.a2 d]
+    | cons e r'' => simp [trimRunes, H.ns, H.a2 d, H.a3 d e]
+
+theorem trimRunes_inert_snoc {k : UInt8} (H : Inert s2 s3 k) (x : Bytes) :
+    trimRunes s2 s3 (x ++ [k]) = trimRunes s2 s3 x ++ [k] := by
+  fun_induction trimRunes s2 s3 x with
+  | case1 => exact trimRunes_inert_head H []
+  | case2 c r hc ih => rw [List.cons_append, trimRunes_cons_space _ _ hc]; exact ih
+  | case3 c hc =>
+    have hc' : isTrimSpace c = false := by simpa using hc
+    simp [trimRunes, hc', H.b2 c]
+  | case4 c hc d r' h2 ih =>
+    have hc' : isTrimSpace c = false := by simpa using hc
+    rw [List.cons_append, List.cons_append, trimRunes_cons2 _ _ _ hc' h2]
+    exact ih
+  | case5 c hc d h2 =>
+    have hc' : isTrimSpace c = false := by simpa using hc
+    have h2' : s2 c d = false := by simpa using h2
+    simp [trimRunes, hc', h2', H.c3 c d]
+  | case6 c hc d h2 e r'' h3 ih =>
+    have hc' : isTrimSpace c = false := by simpa using hc
+    have h2' : s2 c d = false := by simpa using h2
+    rw [List.cons_append, List.cons_append, List.cons_append, trimRunes_cons3 _ _ _ _ hc' h2' h3]
+    exact ih
+  | case7 c hc d h2 e r'' h3 =>
+    have hc' : isTrimSpace c = false := by simpa using hc
+    have h2' : s2 c d = false := by simpa using h2
+    have h3' : s3 c d e = false := by simpa using h3
+    simp [trimRunes, hc', h2', h3']
+
+/-- what is left after trimming does not start with ASCII white space -/
+theorem trimRunes_head (x : Bytes) : ∀ a ∈ (trimRunes s2 s3 x).head?, isTrimSpace a = false := by
+  fun_induction trimRunes s2 s3 x with
+  | case1 => intro a h; simp at h
+  | case2 c r hc ih => exact ih
+  | case3 c hc => intro a h; simp at h; subst h; simpa using hc
+  | case4 c hc d r' h2 ih => exact ih
+  | case5 c hc d h2 => intro a h; simp at h; subst h; simpa using hc
+  | case6 c hc d h2 e r'' h3 ih => exact ih
+  | case7 c hc d h2 e r'' h3 => intro a h; simp at h; subst h; simpa using hc
+end
+
+/-- the first bytes of a binary saltpack message (bin8/16/32 tags) -/
+def BinLead (k : UInt8) : Prop := k = 0xc4 ∨ k = 0xc5 ∨ k = 0xc6
+
+theorem inert_left (k : UInt8) (h : BinLead k) : Inert isSp2 isSp3 k := by
+  rcases h with rfl | rfl | rfl <;>
+    exact ⟨by decide, by intro d; simp [isSp2], by intro c; simp [isSp2], by intro d e; simp [isSp3],
+      by intro c e; simp [isSp3], by intro c d; simp [isSp3]⟩
+
+theorem inert_right (k : UInt8) (h : BinLead k) : Inert (fun c d => isSp2 d c) (fun c d e => isSp3 e d c) k :=
+  have H := inert_left k h
+  ⟨H.ns, H.b2, H.a2, fun d e => H.c3 e d, fun c e => H.b3 e c, fun c d => H.a3 d c⟩
+
+theorem trimSpace_binlead (k : UInt8) (h : BinLead k) (y : Bytes) : ∃ z, trimSpace (k :: y) = k :: z := by
+  unfold trimSpace trimLeft trimRightRev
+  rw [trimRunes_inert_head (inert_left k h), List.reverse_cons, trimRunes_inert_snoc (inert_right k h)]
+  exact ⟨_, by rw [List.reverse_append]; rfl⟩
+
+/-- the result of `strings.TrimSpace` neither starts nor ends with ASCII white space -/
+theorem trimSpace_last (x : Bytes) : ∀ z ∈ (trimSpace x).getLast?, isTrimSpace z = false := by
+  unfold trimSpace trimRightRev
+  rw [List.getLast?_reverse]
+  exact trimRunes_head _
 
 /-! ### collapse -/
 
@@ -215,12 +497,13 @@ theorem trim_collapse_surround (p x q : Bytes) (hp : ∀ c ∈ p, isFrameSpace c
   unfold collapse
   rw [trim_collapse_post _ _ hq, trim_collapse_pre _ _ hp]
 
-/-- trimming ASCII white space first does not change the normal form, when the
-    white space present is frame space -/
-theorem trim_collapse_trim (b : Bytes) (h : ∀ c ∈ b, isTrimSpace c = true → isFrameSpace c = true) :
+/-- trimming white space first does not change the normal form, when the string
+    is ASCII and the white space present is frame space -/
+theorem trim_collapse_trim (b : Bytes) (hb : ∀ c ∈ b, c < 128)
+    (h : ∀ c ∈ b, isTrimSpace c = true → isFrameSpace c = true) :
     trimSpace (collapse (trimSpace b)) = trimSpace (collapse b) := by
-  obtain ⟨p, q, hp, hq, hb⟩ := trimSpace_decomp b
-  conv => rhs; rw [hb]
+  obtain ⟨p, q, hp, hq, hb'⟩ := trimSpace_decomp b hb
+  conv => rhs; rw [hb']
   rw [trim_collapse_surround p _ q (fun c hc => h c (hp c hc).2 (hp c hc).1)
     (fun c hc => h c (hq c hc).2 (hq c hc).1)]
 
@@ -359,14 +642,20 @@ theorem dropWhile_id (y : Bytes) (h : ∀ a ∈ y.head?, isTrimSpace a = false) 
     have : isTrimSpace a = false := h a (by simp)
     simp [this]
 
-theorem trimSpace_id (x : Bytes) (h1 : ∀ a ∈ x.head?, isTrimSpace a = false)
-    (h2 : ∀ z ∈ x.getLast?, isTrimSpace z = false) : trimSpace x = x := by
-  unfold trimSpace
-  rw [dropWhile_id x h1, dropWhile_id x.reverse (by rw [List.head?_reverse]; exact h2),
+theorem trimRunes_id {s2 : UInt8 → UInt8 → Bool} {s3 : UInt8 → UInt8 → UInt8 → Bool} (H : HighOnly s2 s3)
+    (y : Bytes) (h : ∀ a ∈ y.head?, isTrimSpace a = false ∧ a < 128) : trimRunes s2 s3 y = y := by
+  cases y with
+  | nil => rfl
+  | cons a m => exact trimRunes_keep H a m (h a (by simp)).1 (h a (by simp)).2
+
+theorem trimSpace_id (x : Bytes) (h1 : ∀ a ∈ x.head?, isTrimSpace a = false ∧ a < 128)
+    (h2 : ∀ z ∈ x.getLast?, isTrimSpace z = false ∧ z < 128) : trimSpace x = x := by
+  unfold trimSpace trimLeft trimRightRev
+  rw [trimRunes_id highOnly_left x h1, trimRunes_id highOnly_right x.reverse (by rw [List.head?_reverse]; exact h2),
     List.reverse_reverse]
 
 theorem trimSpace_intercalate (ws : List Bytes)
-    (hw : ∀ w ∈ ws, w ≠ [] ∧ ∀ c ∈ w, isTrimSpace c = false) :
+    (hw : ∀ w ∈ ws, w ≠ [] ∧ ∀ c ∈ w, isTrimSpace c = false ∧ c < 128) :
     trimSpace (intercalateSp ws) = intercalateSp ws := by
   apply trimSpace_id
   · cases ws with
